@@ -3,7 +3,10 @@ PROP = {
  'rule': ('rapid-generated (cgroup tree depth 1-3 x fan-out 1-3, resource in {cpuset.cpus, cpu.cfs_quota_us, memory.min, memory.low, memory.high}, '
           'cgroup v1/v2, hierarchy-valid old and new assignments incl. unlimited, fresh or pre-populated ResourceCache); every updater call of '
           'LeveledUpdateBatch is wrapped and the whole tree is snapshotted after it (= every prefix of the write sequence = every crash point). '
-          'non-trivial = depth >= 2 and (some node shrinks while another grows, or a cpuset shifts); distinct = FNV-64 of the full case.'),
+          'non-trivial = depth >= 2 and (some node shrinks while another grows, or a cpuset shifts); distinct = FNV-64 of the full case. '
+          'beCPUSetRewrite: BE cgroup tree (root / 0-3 pods / 0-2 containers) with hierarchy-valid cpusets, 1-3 successive applyCPUSetWithNonePolicy rounds '
+          'through an executor wrapper that forwards one write at a time and snapshots the tree after each; non-trivial = tree has pods and a round shifts '
+          '(or rounds both shrink and grow).'),
  'assumptions': ['a crash point is the boundary between two whole-file writes (a single write(2) is atomic for these small values)',
                  'the temp-file cgroup root of system.NewFileTestUtil stands in for the kernel: validity is judged by the harness, not by the kernel',
                  'cgroup-v2 cpu.max is modelled as "<quota> <period>" initially and as the bare value after the agent wrote it',
@@ -11,7 +14,11 @@ PROP = {
  'units': [{'name': 'executor',
             'pkg': 'pkg/koordlet/resourceexecutor',
             'files': ['C12/c12_executor_test.go'],
-            'tests': [{'run': 'TestVerifC12LeveledUpdate', 'quick': 1500, 'thorough': 6000}]}],
+            'tests': [{'run': 'TestVerifC12LeveledUpdate', 'quick': 1500, 'thorough': 6000}]},
+           {'name': 'cpusuppress',
+            'pkg': 'pkg/koordlet/qosmanager/plugins/cpusuppress',
+            'files': ['C12/c12_cpuset_test.go'],
+            'tests': [{'run': 'TestVerifC12BECPUSetRewrite', 'quick': 600, 'thorough': 3000}]}],
  'manifest': {'technique': 'property-based testing (rapid): generated cgroup trees and old/new assignments; invariant checked on a snapshot after every single updater call (crash-point enumeration within each generated case)',
               'text': ('Generated-input search with per-step invariant: for every generated tree and pair of hierarchy-valid assignments, each prefix of the write sequence of '
                        'LeveledUpdateBatch (and of the BE cpuset rewrite in cpusuppress) is examined as a crash point and must be hierarchy-valid; the final state must equal '
